@@ -9,7 +9,7 @@ Open Scope N_scope.
 
 Ltac sql_unfold :=
   cbv [sholds seval truth option_map and3 or3 b2n cmp_eval mem_N existsb ob orb andb negb
-       ps_env fb_env fb_env_raw prod_env res_env file_env self_env a_env].
+       ps_env fb_env fb_env_raw prod_env res_env file_env self_env a_env w_env].
 
 (* destruct one atom (a boolean column, a comparison, a lookup) and simplify *)
 Ltac sql_atom :=
@@ -92,6 +92,30 @@ Proof.
   unfold dead_file. f_equal. induction (producers sn (f_id f)) as [|p l IH]; [reflexivity|].
   cbn [existsb]. rewrite IH, live_producer_spec. reflexivity.
 Qed.
+
+(* _INSERT_PEND_UNSAFE_ANC: the walk starts from unsafe steps, passes through RUNNING / SUCCEEDED
+   ancestors that hold nothing, and the stop condition is exactly the negation of "pass through"
+   (so every ancestor either continues the walk or ends it: at most one row per step) *)
+Lemma anc_gate_spec u : anc_gate u = s_unsafe u.
+Proof. unfold anc_gate, gen_anc_seed_where. sql_solve. Qed.
+Lemma chain_ok_spec p :
+  chain_ok p = ((s_state p =? SS_RUNNING) || (s_state p =? SS_SUCCEEDED)) && (s_holding p =? 0).
+Proof. unfold chain_ok, gen_anc_cont_where, SS_RUNNING, SS_SUCCEEDED. sql_solve. Qed.
+Lemma anc_stop_spec p : anc_stop p = negb (chain_ok p).
+Proof. unfold anc_stop, chain_ok, gen_anc_stop_where, gen_anc_cont_where. sql_solve. Qed.
+
+(* _INSERT_PEND_ATTRIBUTED: seeds are the rows whose kind is not BLOCK_STEP, the recursive step joins
+   the BLOCK_STEP rows whose src is the step just reached *)
+Lemma is_seed_spec row : is_seed row = negb (c_kind (snd row) =? K_BLOCK_STEP).
+Proof. unfold is_seed, gen_attr_seed_where, K_BLOCK_STEP. sql_solve. Qed.
+Lemma is_child_spec i row : is_child i row = (c_kind (snd row) =? K_BLOCK_STEP) && (c_src (snd row) =? i).
+Proof. unfold is_child, gen_attr_join, K_BLOCK_STEP. sql_solve. Qed.
+
+(* _INSERT_PEND_BLOCKER_RUNNABLE: the steps without a row so far get a ROOT_RUNNABLE row *)
+Lemma runnable_insert_spec :
+  gen_runnable_kind = K_ROOT_RUNNABLE /\
+  forall b, sholds (fun c => match c with B_has_blocker => ob b | _ => None end) gen_runnable_where = negb b.
+Proof. split; [reflexivity|]. intros b. unfold gen_runnable_where. sql_solve. Qed.
 
 (* _bucket / _cyclic_bucket *)
 Lemma bucket_where_spec kind k : sholds (a_env kind k true) gen_bucket_where = (kind =? k).
@@ -262,6 +286,18 @@ Proof.
   rewrite arm_step_block by (intros; sql_solve).
   unfold cands_spec. repeat (f_equal; try reflexivity).
   destruct (blocking_files sn u); reflexivity.
+Qed.
+
+(* _INSERT_PEND_SEED_FILE / _RESOURCE (the seeds of the exact-count closure) are the FILE and RESOURCE
+   candidates of _INSERT_PEND_BLOCKER *)
+Theorem seed_arms_spec sn u : In u (U sn) ->
+  flat_map (arm_cands sn u) gen_seed_arms
+  = map (fun f => (K_ROOT_FILE, f_label f, f_id f)) (filter (dead_file sn) (blocking_files sn u))
+    ++ map (fun r => (K_ROOT_RESOURCE, fst r, 0)) (unsat_reqs sn u).
+Proof.
+  intros Hu. unfold gen_seed_arms. cbn [flat_map]. rewrite app_nil_r.
+  rewrite arm_dead_file by (intros; sql_solve).
+  rewrite arm_resource; [reflexivity|intros r; unfold unsat, gen_pend_resource_where; sql_solve|exact Hu].
 Qed.
 
 (* kinds of the arms: the five root kinds that have an arm, and BLOCK_STEP; never RUNNABLE *)
